@@ -8,16 +8,28 @@ def install(which):
     import smoothmath.expression as E
     undo = []
     if "D3" in which:
-        # D3: NthRoot(NthPower(u, m), n) => NthPower(NthRoot(u, n), m) is unsound for n, m both even (u < 0)
-        orig = getattr(E.NthRoot, "_reduce_nth_root_of_mth_power", None)
-        if orig is not None:
-            def patched(self):
+        # D3: NthRoot(NthPower(u, m), n) => NthPower(NthRoot(u, n), m) is unsound for n, m both even (u < 0).
+        # The rule is recognised by the SHAPE of its input and output, not by its name: every reducer method of NthRoot is wrapped;
+        # a result NthPower(NthRoot(..)) produced from an NthRoot(NthPower(..)) with both parameters even is suppressed.
+        def is_even(k):
+            try:
+                return int(k) % 2 == 0
+            except Exception:  # noqa
+                return False
+
+        def wrap(name, orig):
+            def patched(self, *a, **k):
+                r = orig(self, *a, **k)
                 inner = getattr(self, "_inner", None)
-                if isinstance(inner, E.NthPower) and self.n % 2 == 0 and inner.n % 2 == 0:
+                if (r is not None and isinstance(self, E.NthRoot) and isinstance(inner, E.NthPower) and is_even(self.n) and is_even(inner.n)
+                        and isinstance(r, E.NthPower) and isinstance(getattr(r, "_inner", None), E.NthRoot)):
                     return None
-                return orig(self)
-            E.NthRoot._reduce_nth_root_of_mth_power = patched
-            undo.append(lambda: setattr(E.NthRoot, "_reduce_nth_root_of_mth_power", orig))
+                return r
+            setattr(E.NthRoot, name, patched)
+            undo.append(lambda: setattr(E.NthRoot, name, orig))
+        for name, f in list(vars(E.NthRoot).items()):
+            if callable(f) and "reduce" in name and not isinstance(f, property):
+                wrap(name, f)
 
     def restore():
         for u in undo:
